@@ -88,6 +88,9 @@ def record_system(spec):
     y = 0.5 * rng.standard_normal(N)
     for i in range(q):
         y = y + gains[i] * np.roll(X[i], delays[i])
+    if spec.get("offset"):                                         # records with DC offsets (no detrending: order -1): auto- and cross-spectra
+        X = [x + 5.0 * (i + 1) for i, x in enumerate(X)]           # come from different kernels and must treat the offset alike
+        y = y - 3.0
     kw = dict(scheduler=spec["sched"], order=spec["order"], Jdes=spec.get("Jdes", 20), Kdes=8, Lmin=spec["Lmin"], olap=0.5, backend=spec["backend"])
     ev = []
     with np.errstate(all="ignore"):
@@ -113,12 +116,17 @@ def record_system(spec):
             Xm = [sum(A[i, k] * X[k] for k in range(q)) for i in range(q)]
             _, a = systems.MISO_analytic_optimal_spectral_analysis(Xm, y, fs, **kw) if q <= 3 else systems.MISO_numeric_optimal_spectral_analysis(Xm, y, fs, **kw)
             add(a, "same", "remixed")
-            Xs = [X[0] * 1e-6] + X[1:]
-            _, a = systems.MISO_numeric_optimal_spectral_analysis(Xs, y, fs, **kw)
-            add(a, "same", "rescaled_numeric")
+            if not spec.get("offset"):      # (with undetrended offsets the inputs are nearly collinear near DC: rescaling ONE input moves the
+                Xs = [X[0] * 1e-6] + X[1:]  #  ill-conditioned numeric solution by more than the comparison allows)
+                _, a = systems.MISO_numeric_optimal_spectral_analysis(Xs, y, fs, **kw)
+                add(a, "same", "rescaled_numeric")
         else:
             r2 = speckit.compute_spectrum(np.vstack([X[0], y]), fs, **kw)
             add(np.sqrt(np.asarray(r2.Gyy) * (1 - np.asarray(r2.coh))), "siso", "Gyy(1-coh)")
+            r2b = speckit.compute_spectrum(np.vstack([X[0], y]), fs, **kw)      # the residual read first, then the quantities it is made of
+            gs = np.asarray(r2b.GyySx).copy()
+            add(np.sqrt(np.asarray(r2b.Gyy) * (1 - np.asarray(r2b.coh))), "siso", "Gyy(1-coh)_read_after_GyySx")
+            add(np.sqrt(gs), "siso", "GyySx_itself")
             _, a = systems.SISO_optimal_spectral_analysis(X[0], y, fs, **kw)
             add(a, "same", "siso_helper")
         # the same inputs in other units / number formats: nano-units (input power 1e18 below the output's), and integer
@@ -179,6 +187,9 @@ def run(tier):
                           order=rnd.choice([0, 1, 2]), Lmin=rnd.choice([1, 32]), backend=["numba", "numpy"][(k // 4) % 2]))
     # long records with short segments on the NumPy backend: bins with K far above the kernels' chunk sizes; auto- and cross-spectra come
     # from different kernels and must stay mutually consistent (zero residual for an exact combination)
+    for k in range(4 if tier == "quick" else 12):          # no detrending, records with DC offsets, both backends
+        specs.append(dict(seed=rnd.randrange(2 ** 31), q=[1, 2, 2, 3][k % 4], N=3000, sched=["ltf", "vectorized_ltf"][k % 2], order=-1, Lmin=1,
+                          backend=["numpy", "numba"][(k // 2) % 2], offset=True))
     for o in ((1,) if tier == "quick" else (0, 1, 2)):
         specs.append(dict(seed=rnd.randrange(2 ** 31), q=2, N=60000, sched="ltf", order=o, Lmin=1, backend="numpy", Jdes=10, drift=True))
     trs = common.pmap(record_system, specs, chunksize=1)
